@@ -199,6 +199,9 @@ func runWorker(args []string) int {
 			atomic.StoreInt64(&caseStartCPU, cpuNanos()|1)
 			c := &mon.Case{Prop: id, Family: fam.Name, Index: idx, Seed: *seed, Tier: *tier, Rep: rep}
 			rep.Cases++
+			if !m.Race && m.ID != "C06" && m.ID != "C17" {
+				c.InjectAborts() // fault injection: abandoned (panicking) evaluations between the cases
+			}
 			func() {
 				defer func() {
 					if x := recover(); x != nil {
